@@ -30,6 +30,9 @@ type helloConc struct {
 	prefix []event // applied one after the other; deliver events name frames by description
 	// stimuli handled concurrently: "tunA", "tunB", "cleanA", "cleanB" or "deliver:<description>".
 	threads [][]string
+	// drain: how the network is emptied afterwards: "fifo", "lifo", or "drop<k>" = FIFO
+	// with the k-th key-setup frame that comes up for delivery lost.
+	drain string
 }
 
 func (c helloConc) build() *schedx.Instance {
@@ -108,9 +111,28 @@ func (c helloConc) build() *schedx.Instance {
 		for _, p := range tw.w.Panics {
 			ex.Bad("panic", "worker panic: %s", p)
 		}
-		// drain the network in FIFO order.
+		// drain the network.
+		var drainLog []string
+		setupSeen := 0
 		for steps := 0; len(tw.w.InFlight) > 0 && steps < 60; steps++ {
-			tw.w.Deliver(0)
+			i := 0
+			if c.drain == "lifo" {
+				i = len(tw.w.InFlight) - 1
+			}
+			if strings.HasPrefix(c.drain, "drop") {
+				if d, setup := tw.describe(tw.w.InFlight[i]); setup {
+					if fmt.Sprintf("drop%d", setupSeen) == c.drain {
+						setupSeen++
+						tw.w.Drop(i)
+						drainLog = append(drainLog, "LOST "+d)
+						continue
+					}
+					setupSeen++
+				}
+			}
+			d, _ := tw.describe(tw.w.InFlight[i])
+			drainLog = append(drainLog, d)
+			tw.w.Deliver(i)
 			tw.drainTun()
 		}
 		if len(tw.w.InFlight) > 0 {
@@ -125,7 +147,7 @@ func (c helloConc) build() *schedx.Instance {
 		}
 		ex.Sig = fmt.Sprintf("A.established=%v B.established=%v A->B=%v B->A=%v", sa, sb, ab, ba)
 		if sa && sb && !(ab && ba) {
-			ex.Bad("silent-key-mismatch", "both routers consider encryption established but cannot decrypt each other (A->B ok=%v, B->A ok=%v) after the concurrent stimuli and a FIFO drain", ab, ba)
+			ex.Bad("silent-key-mismatch", "both routers consider encryption established but cannot decrypt each other (A->B ok=%v, B->A ok=%v) after the concurrent stimuli and the drain %v", ab, ba, drainLog)
 		}
 	}
 	return in
@@ -139,7 +161,9 @@ func helloConcs(deep bool) []helloConc {
 			tag = "B-lower"
 		}
 		add := func(name string, prefix []event, th ...[]string) {
-			out = append(out, helloConc{name: tag + "/" + name, aLower: aLower, prefix: prefix, threads: th})
+			for _, dr := range []string{"fifo", "lifo", "drop0", "drop1", "drop2", "drop3"} {
+				out = append(out, helloConc{name: tag + "/" + name + " / drain:" + dr, aLower: aLower, prefix: prefix, threads: th, drain: dr})
+			}
 		}
 		d := func(desc string) event { return event{"deliver", desc} }
 		add("two local packets at A", nil, []string{"tunA"}, []string{"tunA"})
@@ -182,7 +206,11 @@ func runHelloSched(t *testing.T, rep *kit.Report, env kit.Env) {
 	rep.Bounds["sched_preemption_bound"] = bound
 	top := 0
 	for _, c := range helloConcs(env.Deep()) {
-		schedx.ExploreConc(rep, env, c.conc(t, true), bound, &top)
+		b := bound
+		if strings.HasPrefix(c.drain, "drop") && !env.Deep() && os.Getenv("VERIF_SCHED_BOUND") == "" {
+			b = 1 // quick tier: the lossy drains with one preemption
+		}
+		schedx.ExploreConc(rep, env, c.conc(t, true), b, &top)
 	}
 }
 
